@@ -7,7 +7,10 @@
      configurations in its thorough tier);
    * Order.tla: which WHFast combinations must be refused (96 rows executed: refused iff specified invalid) and the
      Kepler mass parameter of each body per coordinate system, N_active and masses (30 rows, integer masses, exact)
-     compared with the value handed to the Kepler solver (hook ksolve).
+     compared with the value handed to the Kepler solver (hook ksolve);
+   * Switch.tla: what one integrator leaves in the simulation object (selected gravity routine, registered N-body ODE)
+     and what the next does with it; every history of <= 3 segments (891) is executed, its error may not exceed 30 x the
+     sum of the errors its integrators make on their own; three negative models (no gravity fall-back, stale ODE kept, ignore flag not cleared) must fail.
  Sampled part (A5)
    * star + planet: every Wisdom-Holman scheme in Jacobi / WHDS coordinates (all kernels, correctors, SABA) reproduces the analytic orbit (independent Kepler solution in the
      harness) to 1e-10 after 200 steps, both directions of time;
@@ -45,6 +48,25 @@ def run(tier, rep):
             rows.append([m.group(1), json.loads(m.group(2).replace('\\"', '"'))])
     if len(rows) < 120:
         raise MachineryError("Order printed %d rows" % len(rows))
+    # histories of integrator switches: the model with the fall-backs as implemented is clean, the two negative models are not
+    sw = common.run_tlc("Switch", "Switch", workers=1, coverage=False, timeout=900)
+    if sw.violation:
+        rep.violation("model:Switch:" + sw.violation, "Switch violates " + sw.violation, {})
+        return
+    if not sw.ok:
+        raise MachineryError("Switch did not complete: %s" % sw.out[-1500:])
+    rep.add(states=sw.distinct, transitions=sw.states)
+    for neg in ("Switch_negF", "Switch_negO", "Switch_negI"):
+        ng = common.run_tlc("Switch", neg, workers=1, coverage=False, timeout=900)
+        if ng.violation != "Clean":
+            raise MachineryError("negative model %s does not violate Clean (%r)" % (neg, ng.violation))
+    nh = 0
+    for ln in sorted(set(l for l in sw.out.splitlines() if l.startswith('<<"H"'))):
+        m = re.match(r'^<<"H", "(.*)">>$', ln)
+        rows.append(["H", json.loads(m.group(1).replace('\\"', '"'))])
+        nh += 1
+    if nh < 800:
+        raise MachineryError("Switch printed %d histories" % nh)
     tf = os.path.join(sc, "table.ndjson")
     open(tf, "w").write("\n".join(json.dumps(r) for r in rows) + "\n")
     out = os.path.join(sc, "out.json")
@@ -56,10 +78,26 @@ def run(tier, rep):
             return
         raise MachineryError("worker failed: %s" % r.stderr[-2500:])
     o = json.load(open(out))
-    n = o["mu_rows"] + o["valid_rows"]
-    rep.add(evaluations=n + o["two_body"] + o["order_runs"] + o["ode_runs"], traces_validated_against_impl=n, distinct_nontrivial=n + o["order_runs"],
+    if tier == "thorough":
+        # the histories that change N around a BS segment once more under ASan + UBSan
+        try:
+            common.build("asan")
+            asan_rt = os.popen("clang -print-file-name=libclang_rt.asan-x86_64.so").read().strip()
+            out2 = os.path.join(sc, "out_asan.json")
+            r2 = common.run_worker(os.path.join(HERE, "w_c01.py"), [tf, out2, str(common.seed()), tier], variant="asan",
+                                   env={"LD_PRELOAD": asan_rt, "ASAN_OPTIONS": "detect_leaks=0", "C01_SWITCH_ONLY": "60"}, timeout=3000)
+            if r2.returncode != 0 and "Sanitizer" in r2.stderr:
+                rep.violation("asan:switch", "sanitizer report while executing integrator-switch histories", {"stderr": r2.stderr[-3000:]})
+            elif r2.returncode != 0:
+                rep.cov["asan"] = "not run: %s" % r2.stderr[-200:]
+            else:
+                rep.cov["asan"] = "%d switch histories clean under ASan+UBSan" % json.load(open(out2))["switch_runs"]
+        except MachineryError as e:
+            rep.cov["asan"] = "not run: %s" % str(e)[:200]
+    n = o["mu_rows"] + o["valid_rows"] + o["switch_runs"]
+    rep.add(evaluations=n + o["two_body"] + o["order_runs"] + o["ode_runs"] + o["encounter_runs"], traces_validated_against_impl=n, distinct_nontrivial=n + o["order_runs"],
             rule="rows of Order.tla's table (mass parameter, validity) executed once each; sampled runs per (scheme, options, direction)", exhaustive=False)
-    rep.cov.update({k: o[k] for k in ("mu_rows", "valid_rows", "two_body", "order_runs", "ode_runs")})
+    rep.cov.update({k: o[k] for k in ("mu_rows", "valid_rows", "two_body", "order_runs", "ode_runs", "switch_runs", "encounter_runs")})
     rep.cov["observed"] = o["observed"]
     rep.cov["operator_words"] = "validated by ./check C09 (evidence/C09.json)"
     rep.sample({"kind": "table row", "row": rows[10]})
